@@ -466,6 +466,47 @@ class Interp:
                 return inv
         return None
 
+    def stateless_body(self, body):
+        """statements that change no state: conditionals around raise / pass / continue (the loop can only raise or do nothing)"""
+        for b in body:
+            if isinstance(b, (ast.Raise, ast.Pass, ast.Continue)):
+                continue
+            if isinstance(b, ast.Expr) and isinstance(b.value, ast.Constant):
+                continue
+            if isinstance(b, ast.If) and self.stateless_body(b.body) and self.stateless_body(b.orelse) \
+                    and not any(isinstance(n, (ast.NamedExpr, ast.Call)) and not (isinstance(n, ast.Call) and self._pure_call(n))
+                                for n in ast.walk(b.test)):
+                continue
+            return False
+        return True
+
+    @staticmethod
+    def _pure_call(n):
+        return isinstance(n.func, ast.Name) and n.func.id in ("len", "abs", "float", "int", "bool", "isinstance") or \
+            (isinstance(n.func, ast.Attribute) and isinstance(n.func.value, ast.Name) and n.func.value.id in ("np", "numpy", "math"))
+
+    def stateless_loop(self, st, it, env, in_class):
+        """`for v in <symbolic-length array>:` with a body that can only raise: the loop raises iff some element makes the body
+        raise (at the first such element, with that element's exception); otherwise it has no effect.  The body is run on an
+        arbitrary element (merged evaluation), the existence of a raising element is decided through the `any` contract."""
+        c = ctx()
+        exc_box = {}
+
+        def raises_at(i):
+            env2 = Env({st.target.id: it.at(i)}, env, env.module)
+            env2.fn_qual = getattr(env, "fn_qual", None)
+            conds = []
+            for pcnd, (kind, v) in c.merged(lambda: self.exec_block(st.body, env2, in_class)):
+                if kind == "raise":
+                    conds.append(pcnd)
+                    exc_box.setdefault("exc", v)
+            return mkbool(bor(*conds)) if conds else False
+
+        flags = SymArr(it.length, raises_at, "bool")
+        if self.truth(arr_any(flags)):
+            raise exc_box.get("exc") or PyRaise("Exception", "raised inside a loop")
+        return None
+
     def st_For(self, st, env, in_class):
         key = self.loop_key(st)
         inv = self.matched_invariant(st)
@@ -477,6 +518,9 @@ class Interp:
         if key in self.invariants:
             return self.invariants[key].run_for(self, st, env, in_class)
         it = self.eval(st.iter, env)
+        if isinstance(it, SymArr) and it.items is None and not isinstance(it.length, int) and isinstance(st.target, ast.Name) \
+                and not st.orelse and self.stateless_body(st.body):
+            return self.stateless_loop(st, it, env, in_class)
         seq = self.iterate(it)
         broke = False
         for v in seq:
